@@ -271,6 +271,7 @@ theorem runOps_rel (R : World → World → Prop) (hrefl : ∀ w, R w w) (htrans
     (hkick : ∀ w t, R w { w with slots := removeUser w.slots t, dead := t :: w.dead })
     (hdrop : ∀ w t, R w { w with slots := removeUser w.slots t })
     (hset : ∀ w me s, R w (setCall w me s).1)
+    (hthrow : ∀ w, R w { w with thrown := true })
     (sc : Scripts) (f : Nat) (w : World) (me : Nat) (ops : List Op) : R w (runOps sc f w me ops).1 := by
   induction f generalizing w me ops with
   | zero => simp [runOps, hrefl]
@@ -279,8 +280,10 @@ theorem runOps_rel (R : World → World → Prop) (hrefl : ∀ w, R w w) (htrans
     | nil => simp [runOps, hrefl]
     | cons op rest =>
       have hop : ∀ (w1 : World) (e1 : List Ev), R w w1 →
-          R w (if w1.alive me then ((runOps sc f w1 me rest).1, e1 ++ (runOps sc f w1 me rest).2) else (w1, e1)).1 := by
+          R w (if w1.thrown then (w1, e1) else if w1.alive me then ((runOps sc f w1 me rest).1, e1 ++ (runOps sc f w1 me rest).2) else (w1, e1)).1 := by
         intro w1 e1 hf
+        split
+        · exact hf
         split
         · exact htrans _ _ _ hf (ih w1 me rest)
         · exact hf
@@ -303,6 +306,8 @@ theorem runOps_rel (R : World → World → Prop) (hrefl : ∀ w, R w w) (htrans
         · exact hop _ _ (hrefl w)
       | gc => exact hop _ _ (hset w me true)
       | it => exact hop _ _ (hset w me false)
+      | err => exact hop _ _ (hthrow w)
+      | exec => exact hop _ _ (hrefl w)
 
 /-! ### what a script can do to a waiting user: nothing, or remove it from the table -/
 
@@ -380,6 +385,7 @@ theorem runOps_keeps (sc : Scripts) (f : Nat) (w : World) (me : Nat) (ops : List
     simp only [World.interactive] at h ⊢
     rw [removeUser_contains, h]; rfl
   · exact setCall_keeps
+  · exact fun w => ⟨fun _ h => h, fun _ h => h⟩
 
 /-! ### turns inside the table -/
 
@@ -430,5 +436,6 @@ theorem runOps_countP_le (p : Option Nat → Bool) (hp : p none = false) (sc : S
     unfold setCall
     dsimp only
     split <;> exact Nat.le_refl _
+  · exact fun _ => Nat.le_refl _
 
 end NV.C12
